@@ -71,3 +71,52 @@ Example C06_premises_satisfiable :
   let r := {| p_status := 200; p_hdr := [(bs "Cache-Control", [bs "max-age=60, No-Store"])]; p_body := 0; p_body_ok := true |} in
   plain_get q = true /\ must_not_store q r = true /\ must_not_store q (with_hdr r [(bs "Cache-Control", [bs "max-age=60"])]) = false.
 Proof. repeat split; vm_compute; reflexivity. Qed.
+
+(* ---------- history level ---------- *)
+From HC Require Import Run.
+From HC.Proofs Require Import ProvProofs.
+
+(* Along every sequential history from an empty store — any requests, any origin script, any timing — every
+   entry in the store any exchange starts from is ([Stor], ProvProofs.v) a full origin response that passed
+   the storability test for the directives of a client request with an understood method, written without
+   its hop-by-hop fields after its body was read completely, or such an entry freshened any number of times
+   by 304s where neither the request nor the 304 said no-store.  Hence its status and body are those of a
+   response r to a plain GET qc (sent as it is, or with conditional fields added, in a logged origin call)
+   for which the property's list says "may be stored": must_not_store qc r = false.
+   (Under every interleaving of concurrent calls the same invariant holds: C16_store_invariant.) *)
+Theorem C06_history_stored : forall cfg h t0 script k wk key e,
+  let obs := run_history cfg h (init_world t0 script) in
+  let Lf := flat_map (fun o => x_events o ++ x_bg_events o) obs in
+  nth_error (worlds_before cfg h (init_world t0 script)) k = Some wk ->
+  get_entry (w_store wk) key = Some e ->
+  Stor (Pl Lf) e /\
+  exists r qc q0, (exists b a c rep, In (EvCall b q0 a c rep) Lf) /\ sent_for qc q0 /\
+    plain_get qc = true /\ e_status e = p_status r /\ e_body e = p_body r /\ must_not_store qc r = false.
+Proof.
+  intros cfg h t0 script k wk key e obs Lf Hw He.
+  assert (HI : InvS (Gl Lf) (Pl Lf) (w_store wk)).
+  { eapply (history_inv Lf cfg h (init_world t0 script)); [apply InvS_empty|apply incl_refl|exact Hw]. }
+  destruct HI as [I1 _]. destruct (I1 _ _ He) as (_ & Hstor & _).
+  split; [exact Hstor|].
+  destruct (Stor_origin _ _ Hstor) as (r & qc & q0 & Hp & Hs & Hu & Hn & Hc & Hok & Hst & Hb).
+  exists r, qc, q0. split; [exact Hp|split; [exact Hs|split; [exact Hu|split; [exact Hst|split; [exact Hb|]]]]].
+  destruct (must_not_store qc r) eqn:Em; [|reflexivity].
+  rewrite (C06_storability_sound qc r Hu Hn Hok Em) in Hc. discriminate.
+Qed.
+Print Assumptions C06_history_stored.
+
+(* non-vacuity: after a stored 200 and a 304 that freshened it, the store the third exchange starts from holds
+   an entry — with the body of the first call *)
+Example C06_history_example :
+  let q := {| q_method := bs "GET"; q_url := {| u_scheme := bs "http"; u_host := bs "a.test"; u_path := bs "/x"; u_query := []; u_force_query := false |};
+              q_hdr := [] |} in
+  let r200 := RResp {| p_status := 200; p_hdr := [(bs "Cache-Control", [bs "max-age=1"]); (bs "Etag", [bs """v1"""])]; p_body := 0; p_body_ok := true |} in
+  let r304 := RResp {| p_status := 304; p_hdr := [(bs "Cache-Control", [bs "max-age=60"])]; p_body := 0; p_body_ok := true |} in
+  let h := [(0, q); (5000000000, q); (1000000000, q)] in
+  match nth_error (worlds_before {| cfg_swr_timeout := 0 |} h (init_world 0 [(0, r200, RErr); (0, RErr, r304)])) 2 with
+  | Some wk => match get_entry (w_store wk) (bs "http://a.test/x#0") with
+               | Some e => e_body e = 0 /\ hget (bs "Cache-Control") (e_hdr e) = bs "max-age=60"
+               | None => False end
+  | None => False
+  end.
+Proof. vm_compute. split; reflexivity. Qed.
